@@ -985,7 +985,9 @@ func (c *CharClassMatcher) NullableVisit(rules map[string]*Rule) bool {
 
 // IsNullable returns the nullable attribute of the node.
 func (c *CharClassMatcher) IsNullable() bool {
-	return len(c.Chars) == 0 && len(c.Ranges) == 0 && len(c.UnicodeClasses) == 0
+	// A class always consumes exactly one rune when it matches, also when it
+	// has no member ([^] matches any rune, [] matches nothing).
+	return false
 }
 
 // InitialNames returns names of nodes with which an expression can begin.
